@@ -13,15 +13,17 @@ from checks.C24 import fs_agree
 LITS = ["", "a", "{{", "}}", "\\N{BULLET}", " ", "é", "\\n", "\\\\", "'", "%"]
 EXPRS = [("x", "x"), ("(+ x 1)", "(x + 1)"), ("(get xs 0)", "xs[0]"), ("s", "s"), ("(.upper s)", "s.upper()")]
 CONVS = ["", "!s", "!r", "!a"]
-EQS = ["", "=", " = "]
+EQS = ["", " =", " = "]
 SPECS = ["", ">4", "{w}", ">{w}", "0{w}d", "{w}x", "{w}.{p}f", "*^{w}", "{w}{c}"]
 
 
 def field(expr, conv, eq, spec):
     """-> (hy text, python text) of one replacement field"""
     h, p = expr
-    hy = "{" + h + eq + ((" " + conv) if conv else "") + ((" :" + spec) if spec else "") + "}"
-    py = "{" + p + eq + conv + ((":" + spec) if spec else "") + "}"
+    py_eq = " = " if (eq == " =" and (conv or spec)) else eq   # Hy needs whitespace before !conv / :spec, and '=' keeps it in its text
+    sp = "" if eq.endswith(" ") else " "   # Hy needs whitespace between the form and !conv / :spec; '=' keeps trailing whitespace in its text
+    hy = "{" + h + eq + ((sp + conv) if conv else "") + (((" " if conv or not eq.endswith(" ") else "") + ":" + spec) if spec else "") + "}"
+    py = "{" + p + py_eq + conv + ((":" + spec) if spec else "") + "}"
     return hy, py
 
 
@@ -75,7 +77,7 @@ def fs_agree(prog, pycode, x, w, p, si, ci, why=None):
         if why is not None:
             why.append("rejected: %r" % (prog[1:3],))
         return False
-    s = ("ab", "", "é'\\"", "x y")[si]
+    s = ("ab", "", "é'q", "x y")[si]
     c = ("d", "x", "")[ci]
     g1, g2 = {}, {}
     for g in (g1, g2):
@@ -120,16 +122,29 @@ def spec(tier, seed):
                 _, pytext = render(parts, False)
             fn = "h%d" % n
             n += 1
+            import re as _re
+            used = set(_re.findall(r"\b(xs|x|w|p|s|c)\b", pytext.replace("\\N{BULLET}", "")))
+            sig, pre, args = [], [], []
+            for nm, ty, (lo, hi), dflt in (("x", "int", (-2, 11), "3"), ("w", "int", (0, 4), "2"), ("p", "int", (0, 2), "1"),
+                                          ("si", "int", (0, 3), "0"), ("ci", "int", (0, 2), "0")):
+                key = {"si": "s", "ci": "c"}.get(nm, nm)
+                if key in used or (nm == "x" and "xs" in used):
+                    sig.append("%s: %s" % (nm, ty))
+                    args.append("_sk.box(%s, %d, %d)" % (nm, lo, hi))
+                else:
+                    args.append(dflt)
+            if not sig:
+                sig = ["x: int"]
             L = ["P_%s = _sk.compile_prog(%r)" % (fn, hytext), "X_%s = compile(%r, '<pyf>', 'eval')" % (fn, pytext),
-                 "def %s(x: int, w: int, p: int, si: int, ci: int) -> bool:" % fn, '    """',
-                 "    pre: -2 <= x <= 11 and 0 <= w <= 4 and 0 <= p <= 2 and 0 <= si <= 3 and 0 <= ci <= 2", "    post: _", '    """',
-                 "    return fs_agree(P_%s, X_%s, x, w, p, si, ci)" % (fn, fn)]
+                 "def %s(%s) -> bool:" % (fn, ", ".join(sig)), '    """',
+                 "    post: _", '    """',
+                 "    return fs_agree(P_%s, X_%s, %s)" % (fn, fn, ", ".join(args))]
             # only the variables that occur matter; CrossHair forks on the others lazily
             obs.append(Ob(fn, "\n".join(L), sample="%s   ==   %s" % (hytext, pytext), group="bracket" if bracket else "plain"))
     tw = "\n".join(["P_twin0 = _sk.compile_prog('f\"{x !r :>{w}}\"')", "X_twin0 = compile('f\"{x!r:>{w}}\"', '<pyf>', 'eval')",
-                    "def twin0(x: int, w: int, p: int, si: int, ci: int) -> bool:", '    """',
-                    "    pre: -2 <= x <= 11 and 0 <= w <= 4 and 0 <= p <= 2 and 0 <= si <= 3 and 0 <= ci <= 2", "    post: _", '    """',
-                    "    fs_agree(P_twin0, X_twin0, x, w, p, si, ci)", "    return False"])
+                    "def twin0(x: int, w: int) -> bool:", '    """',
+                    "    post: _", '    """',
+                    "    fs_agree(P_twin0, X_twin0, _sk.box(x, -2, 11), _sk.box(w, 0, 4), 1, 0, 0)", "    return False"])
     obs.append(Ob("twin0", tw, twin=True, group="twin"))
 
     def extra(tier_, seed_, workdir):
